@@ -868,9 +868,10 @@ class TermCanvas(Canvas):
                 x += 1
 
                 if x >= self.width and self.is_rotten_cursor:
-                    if y >= self.scrollregion_end:
+                    # like a line feed: only the bottom margin scrolls, the last line just stays
+                    if y == self.scrollregion_end:
                         self.scroll()
-                    else:
+                    elif y < self.height - 1:
                         y += 1
 
                     x = 1
